@@ -344,7 +344,9 @@ def r1h(F):
         rev = sorted(c for c in cs if c.endswith(("::rev", "::reverse")))
         r.inst("translate:Call:forward-args", te.where(min(blocks)), not rev, "arguments are pushed in list order" if not rev else "call arguments are pushed reversed")
     fmt = TR.arm_blocks(te, "ucglib::ast::FormatArgs", "List")
-    revs = [b for b in fmt if te.term(b)["k"] == "call" and callee(te.term(b)).endswith("::reverse")]
+    # `v.reverse()` in place or `.rev()` on the iterator that is consumed: each turns one of the two sequences round
+    revs = [b for b in fmt if te.term(b)["k"] == "call" and callee(te.term(b)).endswith(("::reverse", "::rev"))]
+    need(1 <= len(revs) <= 2, "the Format arm pairs placeholders and arguments in a way this rule does not read (%d reversals)" % len(revs))
     r.inst("translate:Format:List:reverses", te.where(min(fmt)), len(revs) == 2, "placeholders and arguments are reversed together" if len(revs) == 2 else "format reverses %d of {parts, arguments}: placeholders pair with the wrong arguments" % len(revs))
     return r
 
@@ -370,14 +372,40 @@ def r2(F):
         hs = [callee(t) for b, t in run.calls() if b in blocks and callee(t).startswith(VM + "op_")]
         need(len(hs) == 1, "Op::%s does not dispatch to exactly one handler (%s)" % (op, hs))
         return F.fn(hs[0])
+    def performed(name, seen, depth=4):
+        """machine operations the handler can perform: in its own body, in the VM helpers it calls, in the closures it
+        creates and in the function items it passes on (`i64::checked_mul` handed to a shared arithmetic helper)"""
+        if name in seen or name not in F.fns or depth < 0:
+            return set(), []
+        seen.add(name)
+        fn = F.fns[name]
+        ops, via = set(), []
+        for b, t in fn.calls():
+            c = callee(t)
+            mo = machine_op(c)
+            if mo:
+                ops.add(mo[0])
+            for a in t["args"]:
+                if "fn" in a and machine_op(a["fn"]):
+                    ops.add(machine_op(a["fn"])[0])
+            if c.startswith(VM) and c not in (POP, VM + "push", VM + "checked_int"):
+                o2, v2 = performed(c, seen, depth - 1)
+                ops |= o2
+                via += [c.split("::")[-1]] + v2
+        for b, j, pl, rv, m in fn.assigns():
+            if rv["k"] == "bin" and rv.get("ty") in ("i64", "f64") and rv["op"] in ("Add", "Sub", "Mul", "Div", "Rem"):
+                ops.add(rv["op"])
+            if rv["k"] == "agg" and rv.get("adt") == "{closure}":
+                o2, v2 = performed(rv["closure"], seen, depth - 1)
+                ops |= o2
+        return ops, via
     for op, (h, helper, trait) in A.items():
         hf = handler_of(op)
-        helpers = [callee(t) for b, t in hf.calls() if callee(t).startswith(VM) and callee(t) not in (POP, VM + "push", VM + "checked_int")]
-        need(len(helpers) == 1, "%s calls %s" % (hf.name, helpers))
-        hp = F.fn(helpers[0])
-        traits = sorted({machine_op(callee(t))[0] for b, t in hp.calls() if machine_op(callee(t))})
+        traits, via = performed(hf.name, set())
+        need(traits, "the machine operation behind %s was not found (not in its helpers, closures or function items)" % hf.name)
+        traits = sorted(traits)
         ok = traits == [trait]
-        r.inst("Op::%s" % op, hf.where(), ok, "%s -> %s -> core::ops::%s" % (op, hp.name.split("::")[-1], trait) if ok else "Op::%s performs %s" % (op, traits))
+        r.inst("Op::%s" % op, hf.where(), ok, "%s -> %s -> core::ops::%s" % (op, "/".join(dict.fromkeys(via)) or "itself", trait) if ok else "Op::%s performs %s" % (op, traits))
     for op, want in C.items():
         hf = handler_of(op)
         bins = sorted({rv["op"] for b, j, pl, rv, m in hf.assigns() if rv["k"] == "bin" and rv["op"] in ("Gt", "Lt", "Ge", "Le", "Eq", "Ne") and rv["ty"] in ("i64", "f64")})
